@@ -5,8 +5,10 @@
    Structure of every handler, as in the Python: guards in source order, every mutation of the
    managed object at the very end of its path.  The model therefore computes an [effect]
    ([decide_*]) and applies it ([apply_effect]); a failing path returns [Err reason] and the
-   store is not touched.  [RCrash] stands for a non-KMIP exception (GENERAL_FAILURE today,
-   property C13's business); the comparator accepts any failure for it. *)
+   store is not touched.  [RCrash] stands for a non-KMIP exception (GENERAL_FAILURE, property C13's
+   business); after the repairs of /repo it is left only for payloads in the form of the other protocol
+   generation and for values whose shape does not fit their attribute name (which no decoder produces);
+   the comparator accepts any failure for it. *)
 From Coq Require Import ZArith List String Bool.
 From PKGen Require Import AttrRuleTable.
 Import ListNotations.
@@ -19,12 +21,14 @@ Definition ver_ge (a b : version) : bool :=
   (fst b <? fst a) || ((fst a =? fst b) && (snd b <=? snd a)).
 Definition is_v2 (v : version) : bool := ver_ge v (2, 0).
 
-(* policy.py query methods dereference the rule set without a None check: [None] = AttributeError *)
-Definition q_modifiable (n : string) : option bool := option_map ar_modifiable_by_client (find_rule n).
-Definition q_deletable (n : string) : option bool := option_map ar_deletable_by_client (find_rule n).
-Definition q_multivalued (n : string) : option bool := option_map ar_multivalued (find_rule n).
-Definition q_applicable (n : string) (ot : Z) : option bool :=
-  option_map (fun r => existsb (Z.eqb ot) (ar_object_types r)) (find_rule n).
+(* policy.py query methods answer False for a name that is not in the table *)
+Definition q_rule (f : attr_rule -> bool) (n : string) : bool :=
+  match find_rule n with Some r => f r | None => false end.
+Definition q_modifiable (n : string) : bool := q_rule ar_modifiable_by_client n.
+Definition q_deletable (n : string) : bool := q_rule ar_deletable_by_client n.
+Definition q_multivalued (n : string) : bool := q_rule ar_multivalued n.
+Definition q_applicable (n : string) (ot : Z) : bool :=
+  q_rule (fun r => existsb (Z.eqb ot) (ar_object_types r)) n.
 Definition q_supported (v : version) (n : string) : bool :=
   match find_rule n with None => false | Some r => ver_ge v (ar_version_added r) end.
 Definition q_deprecated (v : version) (r : attr_rule) : bool :=
@@ -213,23 +217,24 @@ Definition index_of (o : obj) (n : string) (c : aval) : res (option nat) :=
 
 (* _set_attribute_on_managed_object, single-valued branch (the multi-valued check is repeated there) *)
 Definition set_single (o : obj) (n : string) (v : aval) : res effect :=
-  match q_multivalued n with
-  | None => Err RCrash
-  | Some true => Err RCrash     (* not reached from the three operations: callers only pass single-valued names *)
-  | Some false =>
+  if q_multivalued n then Err RCrash   (* not reached from the three operations: callers only pass single-valued names *)
+  else
     match sfield_of_name n with
     | None => match v with VAsi _ _ => Err RCrash | _ => Err RInvalidField end
     | Some SAlg =>
       match v, o_alg o with
       | VInt z, Some a => if a =? z then Ok ENoChange else Err RInvalidField
+      | VInt _, None => Err RInvalidField                 (* the object has no such column *)
       | _, _ => Err RCrash end
     | Some SLen =>
       match v, o_len o with
       | VInt z, Some a => if a =? 0 then Ok (ESet SLen v) else if a =? z then Ok ENoChange else Err RInvalidField
+      | VInt _, None => Err RInvalidField
       | _, _ => Err RCrash end
     | Some SMask =>
       match v, o_mask o with
       | VInt z, Some a => if a =? 0 then Ok (ESet SMask v) else if a =? z then Ok ENoChange else Err RInvalidField
+      | VInt _, None => Err RInvalidField
       | _, _ => Err RCrash end
     | Some SPolicy =>
       match v with
@@ -240,8 +245,7 @@ Definition set_single (o : obj) (n : string) (v : aval) : res effect :=
       match v with
       | VBool b => if o_sensitive o then (if b then Ok ENoChange else Err RInvalidField) else Ok (ESet SSens v)
       | _ => Err RCrash end
-    end
-  end.
+    end.
 
 (* _set_attribute_on_managed_object_by_index: writes only the three stored collections *)
 Definition set_by_index (n : string) (v : aval) (i : nat) : res effect :=
@@ -263,32 +267,32 @@ Inductive areq :=
 
 (* _delete_attribute_from_managed_object *)
 Definition delete_from (o : obj) (n : string) (idx : option Z) (val : option aval) : res effect :=
-  match find_rule n with
-  | None => Err RCrash
-  | Some r =>
-    if negb (existsb (Z.eqb (o_type o)) (ar_object_types r)) then Err RItemNotFound
-    else if negb (ar_deletable_by_client r) then Err RPermissionDenied
-    else if ar_multivalued r then
-      match mfield_of_name n with
-      | None => Err RInvalidField
-      | Some f =>
-        match val with
-        | Some c =>
-          match f, c with
-          | FNames, _ => Err RCrash                  (* attribute_value.value on a Name structure *)
-          | FAsi, VAsi _ _ | FGroups, VText _ =>
-            match first_index c (mget f o) with Some i => Ok (ERemove f i) | None => Err RItemNotFound end
-          | _, _ => Err RCrash
-          end
-        | None =>
-          match idx with
-          | Some i => if (0 <=? i) && (i <? Z.of_nat (List.length (mget f o))) then Ok (ERemove f (Z.to_nat i)) else Err RItemNotFound
-          | None => Ok (EClear f)
-          end
+  if negb (q_applicable n (o_type o)) then Err RItemNotFound
+  else if negb (q_deletable n) then Err RPermissionDenied
+  else if q_multivalued n then
+    match mfield_of_name n with
+    | None => Err RInvalidField
+    | Some f =>
+      (* the current value is unwrapped: a Name becomes its text, the other two a row object; then `if attribute_value:` -
+         an EMPTY name text is falsy and falls through to the index / delete-all branches *)
+      let by_value (c : aval) :=
+        match first_index c (mget f o) with Some i => Ok (ERemove f i) | None => Err RItemNotFound end in
+      let by_index :=
+        match idx with
+        | Some i => if (0 <=? i) && (i <? Z.of_nat (List.length (mget f o))) then Ok (ERemove f (Z.to_nat i)) else Err RItemNotFound
+        | None => Ok (EClear f)
+        end in
+      match val with
+      | Some c =>
+        match f, c with
+        | FNames, VText t => if String.eqb t "" then by_index else by_value c
+        | FAsi, VAsi _ _ | FGroups, VText _ => by_value c
+        | _, _ => Err RCrash
         end
+      | None => by_index
       end
-    else Err RInvalidField
-  end.
+    end
+  else Err RInvalidField.
 
 Definition decide_delete (v : version) (o : obj) (p : del_payload) : res effect :=
   if is_v2 v then
@@ -318,13 +322,9 @@ Definition decide_modify (v : version) (o : obj) (p : mod_payload) : res effect 
     | None => Err RCrash
     | Some (None, _) => Err RCrash
     | Some (Some n, nv) =>
-      match q_modifiable n with
-      | None => Err RCrash
-      | Some false => Err RPermissionDenied
-      | Some true =>
-        match q_multivalued n with
-        | None => Err RCrash
-        | Some true =>
+      if negb (q_modifiable n) then Err RPermissionDenied
+      else
+        if q_multivalued n then
           match m_current p with
           | None => Err RAttrInstanceNotFound
           | Some c =>
@@ -334,7 +334,7 @@ Definition decide_modify (v : version) (o : obj) (p : mod_payload) : res effect 
             | Ok (Some i) => set_by_index n nv i
             end
           end
-        | Some false =>
+        else
           match m_current p with
           | None =>
             match get_value o n with GNone => Err RAttrNotFound | _ => set_single o n nv end
@@ -345,33 +345,25 @@ Definition decide_modify (v : version) (o : obj) (p : mod_payload) : res effect 
             | Ok (Some _) => set_single o n nv
             end
           end
-        end
-      end
     end
   else
     match m_attr p with
     | None => Err RCrash
     | Some (n, idx, nv) =>
-      match q_modifiable n with
-      | None => Err RCrash
-      | Some false => Err RPermissionDenied
-      | Some true =>
-        match q_multivalued n with
-        | None => Err RCrash
-        | Some true =>
+      if negb (q_modifiable n) then Err RPermissionDenied
+      else
+        if q_multivalued n then
           let i := match idx with Some i => i | None => 0 end in
-          if i <? 0 then Err RItemNotFound
-          else match get_value o n with
-               | GList k => if i <? Z.of_nat k then set_by_index n nv (Z.to_nat i) else Err RItemNotFound
-               | _ => Err RCrash             (* len(None) *)
-               end
-        | Some false =>
+          match get_value o n with
+          | GNone => Err RItemNotFound          (* a multi-valued attribute the server does not store *)
+          | GList k => if (0 <=? i) && (i <? Z.of_nat k) then set_by_index n nv (Z.to_nat i) else Err RItemNotFound
+          | GOne => Err RCrash                  (* len() of a scalar: no multi-valued name has one *)
+          end
+        else
           match idx with
           | Some _ => Err RInvalidField
           | None => if Nat.eqb (existing_count v o n) 0 then Err RInvalidField else set_single o n nv
           end
-        end
-      end
     end.
 
 Definition decide_set (v : version) (o : obj) (p : option tagged) : res effect :=
@@ -379,21 +371,10 @@ Definition decide_set (v : version) (o : obj) (p : option tagged) : res effect :
   | None => Err RCrash
   | Some (None, _) => Err RCrash
   | Some (Some n, nv) =>
-    match q_multivalued n with
-    | None => Err RCrash
-    | Some true => Err RMultiValued
-    | Some false =>
-      match q_modifiable n with
-      | None => Err RCrash
-      | Some false => Err RReadOnly
-      | Some true =>
-        match q_applicable n (o_type o) with
-        | None => Err RCrash
-        | Some false => Err RInvalidField
-        | Some true => set_single o n nv
-        end
-      end
-    end
+    if q_multivalued n then Err RMultiValued
+    else if negb (q_modifiable n) then Err RReadOnly
+    else if negb (q_applicable n (o_type o)) then Err RInvalidField
+    else set_single o n nv
   end.
 
 Definition decide (v : version) (o : obj) (r : areq) : res effect :=
